@@ -5,24 +5,37 @@ Open Scope string_scope.
 
 Inductive case11 :=
 | KTable (t : list access)
-| KStress (race_reports : Z) (calls mismatches recorded counter_sum hit_miss_sum hit_miss_expected : Z)
+| KStress (race_reports : Z) (calls mismatches recorded counter_sum hit_miss_sum hit_miss_expected lost_live : Z)
 | KLru (cap : Z) (h : list lev) (overlap : bool).
 
 Definition acc_name (a : access) : string := a_type a ++ "." ++ a_method a ++ "." ++ a_field a.
 
+(* the hypothesis of the interleaving theorems: each call body of the cache is ONE critical section. The walker emits a
+   pseudo-access "<acquire>" per lock acquisition (helpers inlined); a cache method with two of them checks and acts in
+   separate sections *)
+Definition acquisitions (t : list access) (ty m : string) : nat :=
+  List.length (filter (fun a => String.eqb (a_field a) "<acquire>" && String.eqb (a_type a) ty && String.eqb (a_method a) m) t).
+Definition split_body (t : list access) : option access :=
+  find (fun a => String.eqb (a_field a) "<acquire>" && String.eqb (a_type a) "LRUCache" &&
+                 negb (Nat.eqb (acquisitions t (a_type a) (a_method a)) 1)) t.
+
 Definition check_case (c : case11) : report :=
   match c with
   | KTable t =>
-      {| r_verdict := if well_locked t then VOk
+      {| r_verdict := if well_locked t then
+                        match split_body t with
+                        | Some a => VMismatch ("one_critical_section/" ++ a_type a ++ "." ++ a_method a)
+                        | None => VOk end
                       else match first_conflict t with
                            | Some (a, b) => VPredFail ("lock_discipline/" ++ acc_name a ++ "~" ++ acc_name b)
                            | None => VPredFail "lock_discipline" end;
          r_trivial := false; r_tags := ["table"] |}
-  | KStress races calls mism mon csum hmsum hmexp =>
+  | KStress races calls mism mon csum hmsum hmexp lost =>
       {| r_verdict := if negb (Z.eqb races 0) then VPredFail "data_race"
                       else if negb (Z.eqb mism 0) then VPredFail "answers_as_if_alone"
                       else if negb (Z.eqb csum mon) then VPredFail "no_lost_increment"
                       else if negb (Z.eqb hmsum hmexp) then VPredFail "hits_plus_misses"
+                      else if negb (Z.eqb lost 0) then VPredFail "sweep_removes_only_expired"
                       else VOk;
          r_trivial := false; r_tags := ["stress"] |}
   | KLru cap h overlap =>
